@@ -9,7 +9,8 @@ package streamflow
 // (no cycle <=> the nodes admit a rank that strictly decreases along every connection: the `ranked` ghost fields).
 // Exhaustive: every digraph on <= 3 nodes whose ordered pairs carry no edge, an edge with the empty condition or an edge
 // with condition "a" (self loops included), and every digraph on 4 nodes with unconditioned edges; request and response
-// directions. The REAL functions are executed; the oracle is an independent three-colour DFS.
+// directions; the nodes are assigned to one or two flows (a direction holds the nodes of incorporated flows too) in every
+// way for <= 3 nodes. The REAL functions are executed; the oracle is an independent three-colour DFS.
 // Labelled bounded: never counted as proved.
 
 import (
@@ -17,10 +18,10 @@ import (
 	"testing"
 )
 
-func c05BuildDirection(n int, edge func(i, j int) (bool, string), ft publictypes.StreamType) *FlowDirection {
+func c05BuildDirection(n int, edge func(i, j int) (bool, string), ft publictypes.StreamType, flowOf func(i int) string) *FlowDirection {
 	nodes := make([]*FlowGraphNode, n)
 	for i := range nodes {
-		nodes[i] = &FlowGraphNode{flowGraphName: "f", processorKey: string(rune('A' + i))}
+		nodes[i] = &FlowGraphNode{flowGraphName: flowOf(i), processorKey: string(rune('A' + i))}
 	}
 	d := &FlowDirection{flowName: "f", flowType: ft, nodes: map[string]*FlowGraphNode{}}
 	for i := 0; i < n; i++ {
@@ -82,12 +83,30 @@ func TestBoundedC05CycleCheckAgreesWithAcyclicity(t *testing.T) {
 				return false, ""
 			}
 			want := c05HasCycle(n, edge)
-			for _, ft := range []publictypes.StreamType{publictypes.StreamTypeRequest, publictypes.StreamTypeResponse} {
-				got := detectCircularConnections(c05BuildDirection(n, edge, ft)) != nil
-				checked++
-				if got != want {
-					t.Fatalf("n=%d code=%d (digits %v, type %v): detectCircularConnections reports cycle=%v, the graph has cycle=%v",
-						n, code, digits, ft, got, want)
+			// the nodes of a direction may come from several flows (a flow incorporated into another one): every assignment
+			// of the nodes to two flows for n <= 3, "all one flow" and "alternating" for n == 4
+			assignments := 1 << n
+			if n == 4 {
+				assignments = 2
+			}
+			for asg := 0; asg < assignments; asg++ {
+				flowOf := func(i int) string {
+					bit := (asg >> i) & 1
+					if n == 4 {
+						bit = asg * (i % 2)
+					}
+					if bit == 1 {
+						return "g"
+					}
+					return "f"
+				}
+				for _, ft := range []publictypes.StreamType{publictypes.StreamTypeRequest, publictypes.StreamTypeResponse} {
+					got := detectCircularConnections(c05BuildDirection(n, edge, ft, flowOf)) != nil
+					checked++
+					if got != want {
+						t.Fatalf("n=%d code=%d (digits %v, type %v, nodes-to-flows %b): detectCircularConnections reports cycle=%v, the graph has cycle=%v",
+							n, code, digits, ft, asg, got, want)
+					}
 				}
 			}
 		}
